@@ -21,7 +21,7 @@ func intrinsicName(fn *ssa.Function) string {
 	}
 	switch n {
 	case "vs_assume", "vs_assert", "vs_old", "vs_all", "vs_any", "vs_fresh", "vs_modifies",
-		"vs_visited", "vs_cover", "vs_same":
+		"vs_visited", "vs_cover", "vs_same", "vs_done":
 		return n
 	}
 	return ""
